@@ -35,6 +35,8 @@ def diff(exp, got, path=""):
     if ke == "C":
         fe, fg = exp[1], got[1]
         for f in sorted(set(fe) | set(fg)):
+            if f.startswith("x_") and (f not in fe or f not in fg):
+                continue        # xdis-only information: compared only between two xdis results
             if f not in fe:
                 return (path + "/" + f, "<absent>", summary(fg[f]))
             if f not in fg:
